@@ -154,8 +154,8 @@ def refusal(e):
         return 'R:not_float'
     if isinstance(e, ValueError) and 'read-only' in m:
         return 'R:read_only'
-    if isinstance(e, IndexError):
-        return 'R:index'
+    if isinstance(e, IndexError) or (isinstance(e, ValueError) and 'Integer index' in m):
+        return 'R:index'      # numpy: IndexError; fileslice.canonical_slicers: ValueError('Integer index 1 too large')
     if (isinstance(e, OSError) and 'Expected' in m) or (isinstance(e, ValueError) and 'not enough data' in m) \
             or isinstance(e, EOFError):
         return 'R:short_file'
